@@ -304,6 +304,25 @@ def _record_tiny(name, tier, r):
                 do("mul", "gen-after-assert", ca, k=k)
         rec.evs[-1]["_int_positions"] = total
 
+    if h == 4:
+        # ---------------- cofactor 4: the group law on ALL finite points, most of them outside <G>.  Objects without a declared
+        # order: any scalar (n, 2n, h*n, n+-1, ...).  Objects that declare the order n (the library then reduces the scalar
+        # mod 2n, which is only meaningful below 2n): scalars up to n+1.  Sums / multiples equal to the point of order 2
+        # (x0, 0) are named apart by the specification (the library reads Y = 0 as infinity: open finding).
+        for pa in pts:
+            for l in (1, 2):
+                ca = _jac(p, pa, l)
+                for k in (0, 1, 2, 3, n - 1, n, n + 1, 2 * n - 1, 2 * n, 2 * n + 1, 3 * n, 4 * n - 1, 4 * n, 4 * n + 1):
+                    do("mul", "jac", ca, k=k)
+                for k in (0, 1, 2, 3, n - 1, n, n + 1):
+                    do("mul", "jac-ord", ca, k=k)
+                    do("mul", "rmul", ca, k=k)
+                do("dbl", "jac", ca)
+                do("neg", "jac", ca)
+            for pb in pts:
+                do("add", "jac+jac", _jac(p, pa, 1), _jac(p, pb, 2))
+                do("add", "jac+aff", _jac(p, pa, 2), (pb[0], pb[1], 1))
+
     # ---------------- public keys: every (x, y) in (0..p+1)^2 in every encoding
     def pub(via, a3, fn):
         try:
@@ -355,7 +374,7 @@ def _pub_entry_points(name, pub, others=None):
     Public_key with AFFINE Point objects: points of this curve, and points that live on ANOTHER curve object"""
     from register_crypto_plugin.ecdsa import keys, der, ecdsa, ecdh as ecdh_mod
     from register_crypto_plugin.ecdsa.ellipticcurve import PointJacobi, Point
-    p = TINY[name][0]
+    p, n_ = TINY[name][0], TINY[name][5]
     c, G, cv = eclib.tiny_curve(name)
     try:
         params = cv.to_der("explicit")
@@ -378,6 +397,10 @@ def _pub_entry_points(name, pub, others=None):
                 pub("ecdh-der", (x, y, 4), lambda: ecdh_with("load_received_public_key_der", spki(x, y)))
                 pub("ecdh-pem", (x, y, 4), lambda: ecdh_with("load_received_public_key_pem", der.topem(spki(x, y), "PUBLIC KEY")))
             pub("Public_key", (x, y, 0), lambda: ecdsa.Public_key(G, PointJacobi(c, x, y, 1)))
+            # point objects that DECLARE the order n (the declaration must not replace the subgroup check)
+            pub("point-ord", (x, y, 0), lambda: keys.VerifyingKey.from_public_point(PointJacobi(c, x, y, 1, n_), cv))
+            pub("Public_key-ord", (x, y, 0), lambda: ecdsa.Public_key(G, PointJacobi(c, x, y, 1, n_)))
+            pub("ecdh-object-ord", (x, y, 0), lambda: ecdh_with("load_received_public_key", keys.VerifyingKey.from_public_point(PointJacobi(c, x, y, 1, n_), cv)))
             pub("ecdh-object", (x, y, 0), lambda: ecdh_with("load_received_public_key", keys.VerifyingKey.from_public_point(PointJacobi(c, x, y, 1), cv)))
     for (x, y) in eclib.tiny_points(name):
         for xx, yy in ((x, y), (x + p, y), (x, y + p)):
@@ -716,6 +739,11 @@ def _oracle_curve(args):
             forms += [("pub-point", "from_public_point(PointJacobi)", lambda: keys.VerifyingKey.from_public_point(PointJacobi(c, px, py, 1), cv)),
                       ("pub-point", "from_public_point(PointJacobi Z=2)", lambda: keys.VerifyingKey.from_public_point(PointJacobi(c, 4 * px % p, 8 * py % p, 2), cv)) if max(px, py) < p else None,
                       ("public-key-ctor", "Public_key(G, PointJacobi)", lambda: ecdsa_mod.Public_key(cv.generator, PointJacobi(c, px, py, 1))),
+                      # objects that DECLARE the order n: the declaration must not replace the subgroup check
+                      ("pub-point", "from_public_point(PointJacobi order=n)", lambda: keys.VerifyingKey.from_public_point(PointJacobi(c, px, py, 1, n), cv)),
+                      ("public-key-ctor", "Public_key(G, PointJacobi order=n)", lambda: ecdsa_mod.Public_key(cv.generator, PointJacobi(c, px, py, 1, n))),
+                      ("pub-point", "ECDH.load_received_public_key(from_public_point(PointJacobi order=n))",
+                       lambda: ecdh_obj(keys.VerifyingKey.from_public_point(PointJacobi(c, px, py, 1, n), cv))),
                       ("pub-point", "ECDH.load_received_public_key(from_public_point(...))", lambda: ecdh_obj(keys.VerifyingKey.from_public_point(PointJacobi(c, px, py, 1), cv)))]
             home = others.get(what) or (cv if what.startswith(("valid", "negated")) else None)
             if home is not None:
@@ -852,6 +880,42 @@ def _tiny_history(args):
                     for how in ("int", "bytes"):
                         sec, s = _ecdh_run(ecdh_mod.ECDH, scen, X, O, sk, vkX, vkO, how)
                         rec(nx).ev("ecdhh", name + ":" + how, pat, (sec, 0, 0), k=dA, m=dB, s=s)
+    # ---- one long-lived ECDH object, many peers loaded in turn (bytes / DER / PEM / object), no references kept, gc in
+    #      between, the private key re-loaded now and then: every secret judged like a fresh one
+    import gc
+    from register_crypto_plugin.ecdsa import der as der_mod
+    for nx in names[:2]:
+        c_, G_, X = eclib.tiny_curve(nx)
+        n_ = TINY[nx][5]
+        dA = 2
+        e = ecdh_mod.ECDH(X, keys.SigningKey.from_secret_exponent(dA, X))
+        for i in range(70):
+            dB = 1 + (i * 5 + order) % (n_ - 1)
+            if nx == "T11" and dB == 15:
+                dB = 4
+            how = ("bytes", "der", "pem", "object", "bytes")[i % 5]       # (2-byte compressed = raw on a tiny field: not used)
+            try:
+                vk = keys.SigningKey.from_secret_exponent(dB, X).get_verifying_key()
+                if how == "bytes":
+                    e.load_received_public_key_bytes(vk.to_string("uncompressed"))
+                elif how == "bytes-compressed":
+                    e.load_received_public_key_bytes(vk.to_string("compressed"), valid_encodings=["compressed"])
+                elif how == "der":
+                    e.load_received_public_key_der(vk.to_der())
+                elif how == "pem":
+                    e.load_received_public_key_pem(vk.to_pem())
+                else:
+                    e.load_received_public_key(vk)
+                del vk
+                if i % 3 == 0:
+                    gc.collect()
+                if i % 11 == 10:
+                    dA = 2 + (i // 11) % 3
+                    e.load_private_key(keys.SigningKey.from_secret_exponent(dA, X))
+                sA, sB, s = int(e.generate_sharedsecret()), int.from_bytes(e.generate_sharedsecret_bytes(), "big"), "ok"
+            except Exception as ex:
+                sA, sB, s = 0, 0, "raise:" + eclib.mro(ex)
+            rec(nx).ev("ecdh", "long-lived:%d:%s" % (i, how), (sA, sB, 0), k=dA, m=dB, s=s)
     # ---- look-alike Curve OBJECTS: same OID / same name / same p and a but other b, other generator, other order value,
     #      OID missing on one side -- as peer key curve, as object curve, in every call sequence
     from register_crypto_plugin.ecdsa.ellipticcurve import CurveFp, Point
@@ -1053,6 +1117,45 @@ def _oracle_history(args):
                 e = rec.ev("verdict", "history: point %s of the look-alike of %s (%s) loaded through %s" % (qb.hex(), X.name, lname, how), lv, None, cls=cls,
                            ctx="ecdh-bytes" if "ECDH" in how else ("pub-point" if "point object" in how else "pub-string"))
                 look_pending.append((e, X, qb))
+    # ---- one long-lived ECDH object per curve, 60 peers loaded in turn (bytes / DER / PEM / object), no references kept,
+    #      gc in between, private key re-loaded now and then: every secret compared with `openssl pkeyutl -derive`
+    import gc
+    for X in [byname[nm_] for nm_ in (sorted(byname) if thorough else ("NIST256p", "SECP160r1", "BRAINPOOLP384r1", "SECP112r2"))]:
+        L = blen(X)
+        nX = int(X.order)
+        dA = r.randrange(1, nX)
+        try:
+            e_obj = ecdh_mod.ECDH(X, keys.SigningKey.from_secret_exponent(dA, X))
+        except Exception as ex:
+            rec.ev("flags", "history: long-lived ECDH on %s: set-up raised %s" % (X.name, eclib.mro(ex)), [0], [])
+            continue
+        for i in range(60):
+            dB = r.randrange(1, nX)
+            how = ("bytes", "der", "pem", "object", "bytes-compressed")[i % 5]
+            pub_der = eclib.ossl_pub_raw(X, dB)[1]                  # the peer's key comes from OpenSSL
+            ncalls += 1
+            try:
+                if how == "bytes":
+                    e_obj.load_received_public_key_bytes(pub_der[-2 * L - 1:])
+                elif how == "bytes-compressed":
+                    e_obj.load_received_public_key_bytes(bytes([2 + (pub_der[-1] & 1)]) + pub_der[-2 * L:-L])
+                elif how == "der":
+                    e_obj.load_received_public_key_der(pub_der)
+                elif how == "pem":
+                    e_obj.load_received_public_key_pem(der_mod.topem(pub_der, "PUBLIC KEY"))
+                else:
+                    e_obj.load_received_public_key(keys.VerifyingKey.from_der(pub_der))
+                if i % 3 == 0:
+                    gc.collect()
+                if i % 13 == 12:
+                    dA = r.randrange(1, nX)
+                    e_obj.load_private_key(keys.SigningKey.from_secret_exponent(dA, X))
+                lib, cls = (e_obj.generate_sharedsecret_bytes() if i % 2 else int(e_obj.generate_sharedsecret()).to_bytes(L, "big")), ""
+            except Exception as ex:
+                lib, cls = b"\xff", eclib.mro(ex)
+            ev_ = rec.ev("eq", "history: long-lived ECDH object on %s, peer %d of 60 loaded as %s (dA=%d dB=%d) = openssl derive" % (X.name, i + 1, how, dA, dB),
+                         list(lib), None, cls=cls)
+            derive.append((ev_, X, dA, dB))
     # ---- k*G on A, on B, on A again (same integers)
     mulq = []
     for A, B in pairs:
@@ -1116,7 +1219,7 @@ def run(tier):
         # ---------------------------------------------------------------- record (worker processes) while TLC model-checks
         ctx = mp.get_context("fork")
         pool = ctx.Pool(8)
-        tiny_async = pool.map_async(_tiny_job, [(nm, tier, "c17/" + nm) for nm in prime_curves + ["TH2"]])
+        tiny_async = pool.map_async(_tiny_job, [(nm, tier, "c17/" + nm) for nm in prime_curves + ["TH2", "TH4"]])
         ora_async = pool.map_async(_oracle_curve, [(i, tier, wd) for i in range(17)], chunksize=1)
         # histories: each in a fresh interpreter of its own
         thist_async = eclib.FreshJobs(os.path.join(wd, "fresh"), "harness.checks.c17", "_tiny_history", [(tier, 0), (tier, 1)])
@@ -1126,7 +1229,7 @@ def run(tier):
             nm, invs, tag = job
             return job, tlc.run(os.path.join(SPEC, "MC_ECGroup.tla"), _mc_cfg(nm, invs), os.path.join(wd, "mc_%s_%s" % (nm, tag)),
                                 workers=3, timeout=900)
-        jobs = [(nm, MC_INV, "ax") for nm in prime_curves] + [("TH2", [i for i in MC_INV if i != "PrimeOrder"], "ax")] + \
+        jobs = [(nm, MC_INV, "ax") for nm in prime_curves] + [(nm, [i for i in MC_INV if i != "PrimeOrder"], "ax") for nm in ("TH2", "TH4")] + \
                [("T17", ["BadLawClosed"], "st1"), ("T11", ["BadLawAssoc"], "st2")]
         with cf.ThreadPoolExecutor(max_workers=len(jobs)) as ex:
             for (nm, invs, tag), res in ex.map(mc, jobs):
@@ -1281,8 +1384,10 @@ def _tiny_violation(rep, nm, e, x, ctx):
     from .. import tlaval
     clause, detail = x[2], x[3]
     key = None
-    if clause in ("order-check-reads-y0-as-infinity", "infinity-object-exception-class", "order2-affine-point-exception-class"):
+    if clause in ("order-check-reads-y0-as-infinity", "infinity-object-exception-class", "order2-affine-point-exception-class", "foreign-object-order-check"):
         key = clause
+    elif clause == "y0-result-read-as-infinity":
+        key = "order-check-reads-y0-as-infinity"        # same root (Y = 0 is the library's infinity), named by the specification
     elif e["op"] in ("neg", "negadd") and e["via"].split(",")[0] == "INF" and e["s"].startswith("raise:AttributeError"):
         key = "neg-infinity-object-raises"
     elif e["op"] in ("add", "negadd", "dbl", "mul", "muladd", "ecdh"):
@@ -1307,6 +1412,8 @@ def _tiny_violation(rep, nm, e, x, ctx):
         via = e["via"]
         if via.startswith("gen-int"):
             via = via.split(":")[0]
+        elif via.startswith("long-lived"):
+            via = "long-lived"
         elif e["op"] == "ecdhh":
             parts = via.split(":")
             via = parts[0] + (":" + parts[2] if len(parts) > 2 else "")
